@@ -88,7 +88,7 @@ func newFnEnc(eng *Engine, fn *ssa.Function, name string, ctr *FuncContract) *fn
 		closures: map[ssa.Value]*ssa.MakeClosure{},
 		reach:   map[*ssa.BasicBlock]Term{}, outSt: map[*ssa.BasicBlock]*state{}, edge: map[[2]int]Term{},
 		oblNames: map[string]int{}, assumptions: map[string]bool{}, strLits: map[string]Term{},
-		ghostVars: map[string]Term{}, paramVal: map[string]SVal{}, implFns: map[string]*types.Interface{}, backGoals: map[int][]*backEdgeGoals{}, embIDs: map[string]int{},
+		ghostVars: map[string]Term{}, paramVal: map[string]SVal{}, implFns: map[string]*types.Interface{}, backGoals: map[int][]*backEdgeGoals{}, embIDs: map[string]int{}, invUse: map[string]bool{},
 	}
 	if e.pkg == "" && fn.Pkg != nil {
 		e.pkg = fn.Pkg.Pkg.Path()
@@ -246,9 +246,16 @@ func (e *fnEnc) run() (err error) {
 		if e.ctr.Options["nocheck"] == "" || !strings.Contains(e.ctr.Options["nocheck"], "frame") {
 			e.frameObligations(st, exitReach)
 		}
+		var cases []string
+		if len(e.retSt) > 8 {
+			for _, rp := range e.retSt {
+				cases = append(cases, rp.reach.S)
+			}
+		}
 		for i, cl := range e.ctr.Get("ensures") {
 			g := e.evalBool(cl.E, env)
-			e.obligationNoAssume("post", clauseLabel(cl, i), exitReach, g, cl.Text, cl.Line)
+			o := e.obligationNoAssume("post", clauseLabel(cl, i), exitReach, g, cl.Text, cl.Line)
+			o.Cases = cases
 		}
 	}
 	return nil
@@ -257,7 +264,12 @@ func (e *fnEnc) run() (err error) {
 // existsAt: references held by a value were allocated at or before 'alloc'.
 func (e *fnEnc) existsAt(v Term, t types.Type, alloc Term) Term {
 	switch types.Unalias(t).Underlying().(type) {
-	case *types.Pointer, *types.Map, *types.Chan:
+	case *types.Pointer:
+		// a negative reference is the address of an inline struct field: its root object exists
+		rootf := e.declareFun("rootobj", []Sort{SInt}, SInt)
+		rt := app(SInt, rootf, v)
+		return and(le(v, alloc), imp(lt(v, intLit(0)), and(lt(intLit(0), rt), le(rt, alloc))))
+	case *types.Map, *types.Chan:
 		return le(v, alloc)
 	case *types.Slice:
 		return le(slBase(v), alloc)
@@ -517,6 +529,11 @@ func (e *fnEnc) mergeStatesNamed(label string, each func(func(*state, Term))) *s
 		pi := e.pi()
 		pi.epoch++
 		out.m["!epoch"] = T(SInt, fmt.Sprint(pi.epoch))
+		out.lazyFrom = sts
+		out.lazyCond = conds
+	}
+	if sameEpoch {
+		out.lazyFrom, out.lazyCond = sts[0].lazyFrom, sts[0].lazyCond
 	}
 	keys := map[string]bool{}
 	for _, s := range sts {
@@ -584,7 +601,22 @@ func (e *fnEnc) heapGetEpoch(st *state, comp string, s Sort) Term {
 	if t, ok := st.m["!epoch"]; ok {
 		ep = t.S
 	}
-	return e.declare(comp+"@"+ep, s)
+	name := comp + "@" + ep
+	first := !e.declSeen[sym(name)]
+	t := e.declare(name, s)
+	if first && len(st.lazyFrom) > 0 {
+		// joined state: link the component to its value in each joined predecessor
+		for i, from := range st.lazyFrom {
+			var ft Term
+			if v, ok := from.m[comp]; ok {
+				ft = v
+			} else {
+				ft = e.heapGetEpoch(from, comp, s)
+			}
+			e.assert(imp(st.lazyCond[i], eq(t, ft)))
+		}
+	}
+	return t
 }
 
 // havocAll forgets everything about the heap.
@@ -595,6 +627,7 @@ func (e *fnEnc) havocAll(st *state) {
 		delete(st.m, k)
 	}
 	st.m["!epoch"] = T(SInt, fmt.Sprint(pi.epoch))
+	st.lazyFrom, st.lazyCond = nil, nil
 	e.logMod("*", "x")
 	na := e.freshConst("alloc@h", SInt)
 	e.assert(le(st.alloc, na))
@@ -605,10 +638,20 @@ func (e *fnEnc) havocAll(st *state) {
 // assumeGlobalInvs assumes the package's global invariants (facts about
 // package-level variables established by their initialisers) in state st.
 func (e *fnEnc) assumeGlobalInvs(st *state) {
-	for _, inv := range e.eng.globalInvs[e.pkg] {
-		env := &specEnv{enc: e, vars: map[string]SVal{}, st: st, old: st, pkg: e.pkg}
+	var pkgs []string
+	for p := range e.eng.globalInvs {
+		pkgs = append(pkgs, p)
+	}
+	sort.Strings(pkgs)
+	for _, ipkg := range pkgs {
+	for _, inv := range e.eng.globalInvs[ipkg] {
+		if !e.usesGlobalsOf(inv) {
+			continue
+		}
+		env := &specEnv{enc: e, vars: map[string]SVal{}, st: st, old: st, pkg: ipkg}
 		e.assert(e.evalBool(inv.E, env))
 		e.assume("global invariant " + inv.Name + " (initialiser fact, assumed never overwritten): " + inv.Text)
+	}
 	}
 }
 
@@ -642,6 +685,8 @@ func (e *fnEnc) val(v ssa.Value) Term {
 		if !e.declSeen["funcrange."+t.S] {
 			e.declSeen["funcrange."+t.S] = true
 			e.assertGlobal(lt(intLit(0), t))
+			fname := strings.TrimSuffix(strings.TrimSuffix(canonFuncName(v.String()), "$thunk"), "$bound")
+			e.assertGlobal(eq(app(SInt, e.funcidFun(), t), intLit(int64(e.eng.funcID(fname)))))
 		}
 		return t
 	case *ssa.Builtin:
@@ -810,3 +855,61 @@ func (e *fnEnc) impureReason() string {
 	}
 	return ""
 }
+
+// usesGlobalsOf: the function refers to one of the package-level variables the
+// invariant talks about (otherwise the invariant is irrelevant to it).
+func (e *fnEnc) usesGlobalsOf(inv *Lemma) bool {
+	if e.fn == nil {
+		return true
+	}
+	key := "invuse:" + inv.Name
+	if v, ok := e.invUse[key]; ok {
+		return v
+	}
+	ids := map[string]bool{}
+	collectIdents(inv.E, ids)
+	used := false
+	for _, b := range e.fn.Blocks {
+		for _, in := range b.Instrs {
+			for _, op := range in.Operands(nil) {
+				if g, ok := (*op).(*ssa.Global); ok && ids[g.Name()] {
+					used = true
+				}
+			}
+		}
+	}
+	e.invUse[key] = used
+	return used
+}
+
+func collectIdents(x Expr, out map[string]bool) {
+	switch x := x.(type) {
+	case *EIdent:
+		out[x.Name] = true
+	case *EBin:
+		collectIdents(x.L, out)
+		collectIdents(x.R, out)
+	case *EUn:
+		collectIdents(x.X, out)
+	case *ECall:
+		for _, a := range x.Args {
+			collectIdents(a, out)
+		}
+	case *ESel:
+		collectIdents(x.X, out)
+	case *EIndex:
+		collectIdents(x.X, out)
+		collectIdents(x.I, out)
+	case *ESlice:
+		collectIdents(x.X, out)
+	case *EQuant:
+		collectIdents(x.Body, out)
+	case *EOld:
+		collectIdents(x.X, out)
+	case *ECast:
+		collectIdents(x.X, out)
+	}
+}
+
+func (e *fnEnc) funcidFun() string   { return e.declareFun("funcid", []Sort{SInt}, SInt) }
+func (e *fnEnc) funcrecvFun() string { return e.declareFun("funcrecv", []Sort{SInt}, SInt) }
